@@ -51,17 +51,56 @@ def chunks_of(model, rec, n):
 
 
 def lis_checksum(by: bytes) -> int:
-    """16 bit rotating checksum; the value is never compared with TotalDepth's (see DESIGN C05)."""
+    """The value of the 16 bit checksum trailer: over all bytes of the physical record before it, taken as 16 bit words with
+    the FIRST byte of each pair the low one, add with end-around carry then rotate left by one; written most significant
+    byte first.  No text of the standard is available offline; this form is the one that reproduces all 110 checksum
+    trailers of the repository's own field file example_data/LIS/data/DILLSON-1_WELL_LOGS_FILE-049.LIS (selftest re-checks
+    that), which makes it a reference independent of the code under test."""
     c = 0
     for i in range(0, len(by) - 1, 2):
-        c += (by[i] << 8) | by[i + 1]
-        if c & 0x10000:
-            c += 1
-        c = (c << 1)
-        if c & 0x10000:
-            c += 1
-        c &= 0xffff
+        c += (by[i + 1] << 8) | by[i]
+        c = (c & 0xffff) + (c >> 16)
+        c = ((c << 1) | (c >> 15)) & 0xffff
     return c
+
+
+def shape_checksum(model, targets=(0xffff, 0x0000, 0xfffe, 0x0001)):
+    """Boundary values for the checksum trailer: the last two payload bytes of every logical record that the writer will put
+    into ONE physical record (greedy layout, no record-number trailer, even length) are chosen so that the checksum of that
+    physical record is one of the targets (all ones, zero and their neighbours).  Returns the number of records shaped."""
+    if not model['chk'] or model['rec']:
+        return 0
+    done = 0
+    for k, rec in enumerate(model['records']):
+        pay = bytearray(payload_bytes(rec))
+        if len(pay) < 4 or len(pay) % 2 or len(pay) > max_payload(model):
+            continue
+        attr = (1 << 12) | ((1 << 10) if model['file'] is not None else 0)
+        plen = PRH + len(pay) + trailer_len(model)
+        head = struct.pack('>HH', plen, attr) + bytes(pay[:-2])
+        tail = struct.pack('>H', model['file']) if model['file'] is not None else b''
+        c0 = 0
+        for i in range(0, len(head) - 1, 2):
+            c0 += (head[i + 1] << 8) | head[i]
+            c0 = (c0 & 0xffff) + (c0 >> 16)
+            c0 = ((c0 << 1) | (c0 >> 15)) & 0xffff
+        want = targets[k % len(targets)]
+        for w in range(65536):
+            c = c0 + w
+            c = (c & 0xffff) + (c >> 16)
+            c = ((c << 1) | (c >> 15)) & 0xffff
+            if tail:
+                c += (tail[1] << 8) | tail[0]
+                c = (c & 0xffff) + (c >> 16)
+                c = ((c << 1) | (c >> 15)) & 0xffff
+            if c == want:
+                pay[-2], pay[-1] = w & 0xff, w >> 8
+                rec.pop('key', None)
+                rec['payload'] = bytes(pay).hex()
+                rec['len'] = len(pay)
+                done += 1
+                break
+    return done
 
 
 def build(model, tif=None, rec_start=None):
@@ -70,7 +109,7 @@ def build(model, tif=None, rec_start=None):
     tif = model['tif'] if tif is None else tif
     assert model['prlen'] <= 65535 and max_payload(model) >= 1
     out = bytearray()
-    layout = {'records': [], 'mask': [], 'recnum_pos': [], 'fields': []}
+    layout = {'records': [], 'mask': [], 'recnum_pos': [], 'chk_pos': [], 'fields': []}
     recnum = model.get('rec_start', 0) if rec_start is None else rec_start
     prev_marker = 0
     markers = []
@@ -105,8 +144,14 @@ def build(model, tif=None, rec_start=None):
                 attr |= 1 << 12
             plen = PRH + c + trailer_len(model)
             start = len(out)
+            # LIS-79 2.3.1.1: a tape block may be padded "to guarantee a minimum record size"; on a TIF-marked image the next
+            # word of the marker skips the padding (model['tif_pad'] = ['min', n] | ['align', n]; only files for C20 have it)
+            pad = 0
+            tp = model.get('tif_pad')
+            if tif != 'none' and tp:
+                pad = max(0, tp[1] - plen) if tp[0] == 'min' else (-plen) % tp[1]
             if tif != 'none':
-                put_marker(0, plen)
+                put_marker(0, plen + pad)
             prh = len(out)
             body = bytearray(struct.pack('>HH', plen, attr))
             body += pay[off:off + c]
@@ -119,10 +164,12 @@ def build(model, tif=None, rec_start=None):
             if model['file'] is not None:
                 body += struct.pack('>H', model['file'])
             if model['chk']:
-                layout['mask'].append((prh + len(body), 2))
+                layout['chk_pos'].append(prh + len(body))
                 body += struct.pack('>H', lis_checksum(bytes(body)))
             assert len(body) == plen
             out += body
+            if pad:
+                out += (b'\x00' if model['tif_pad'][2] == 'null' else b'\x20') * pad
             layout['fields'].append((prh, 2, 'pr.len'))
             layout['fields'].append((prh + 2, 2, 'pr.attr'))
             pr['end'] = len(out)
@@ -266,6 +313,10 @@ def fix_reversed(model):
     if model['tif'] == 'reversed':
         rec = model['records'][0]
         first = chunks_of(model, rec, len(payload_bytes(rec)))[0]
-        nxt = 12 + PRH + first + trailer_len(model)
+        plen = PRH + first + trailer_len(model)
+        tp = model.get('tif_pad')
+        if tp:
+            plen += max(0, tp[1] - plen) if tp[0] == 'min' else (-plen) % tp[1]
+        nxt = 12 + plen
         if nxt in (0x100, 0x10000) or nxt <= 0:
             model['tif'] = 'normal'
